@@ -346,7 +346,8 @@ mutual
     positional fields, function types and unions, nested without bound. -/
 def Ty.frag : Ty → Bool
   | .prim _ => true
-  | .ident _ [] => true
+  | .ident _ args => Ty.fragList args
+  | .selfDefault args => Ty.fragList args
   | .cycle _ => true
   | .resource _ => true
   | .tuple _ fs _ => Field.fragList fs
@@ -471,7 +472,7 @@ theorem printAtom_head {t : Ty} (hf : t.frag = true) (hw : t.wf = true) :
       cases hp : isPrimName n with
       | false => exact ⟨'\'', _, by simp [printAtom, atomWrap, printTy, hp]; rfl, rfl⟩
       | true => exact ⟨'(', _, by simp [printAtom, atomWrap, printTy, hp]; rfl, rfl⟩
-    | cons a as => simp [Ty.frag] at hf
+    | cons a as => exact ⟨'\'', _, by simp [printAtom, atomWrap, printTy]; rfl, rfl⟩
   | cycle l => exact ⟨'^', printCycle l, by show printTy (.cycle l) = _; exact printTy_cycle l, rfl⟩
   | resource n => exact ⟨'\\', n, rfl, rfl⟩
   | func i o => exact ⟨'(', _, by simp [printAtom, atomWrap]; rfl, rfl⟩
@@ -513,7 +514,7 @@ theorem printAtom_head {t : Ty} (hf : t.frag = true) (hw : t.wf = true) :
   | inter ts => exact ⟨'(', _, by simp [printAtom, atomWrap]; rfl, rfl⟩
   | proc a r => simp [Ty.frag] at hf
   | modty a b c => simp [Ty.frag] at hf
-  | selfDefault a => simp [Ty.frag] at hf
+  | selfDefault a => exact ⟨'\'', _, by simp [printAtom, atomWrap, printTy]; rfl, rfl⟩
 
 /-! ### One knot level -/
 
@@ -564,7 +565,7 @@ theorem printMember_eq_atom {t : Ty} (hf : t.frag = true) (hni : ∀ ts, t ≠ .
     | nil =>
       have : isPrimName n = false := by simpa [Ty.isPrimRef] using hnp
       simp [printMember, printAtom, memberWrap, atomWrap, this]
-    | cons a as => simp [Ty.frag] at hf
+    | cons a as => simp [printMember, printAtom, memberWrap, atomWrap]
   | inter ts => exact absurd rfl (hni ts)
   | _ => simp_all [printMember, printAtom, memberWrap, atomWrap, Ty.frag]
 
@@ -889,6 +890,67 @@ theorem stopB_bar (s : Str) : stopB (' ' :: '|' :: s) = true := by
 theorem stopB_arrow (s : Str) : stopB (' ' :: '-' :: s) = true := by
   simp [stopB, headAll, contChar, isIdentBody, isLower, isUpper, isDigit, isMultispace]
 
+/-! ### Type arguments `<a, b>` -/
+
+theorem stopTd_gt (s : Str) : stopTd ('>' :: s) = true := by
+  have h1 : skipWsc false ('>' :: s) = '>' :: s := skipWsc_of_head (by simp [headAll, isMultispace])
+  simp [stopTd, stopB, h1, headAll, contChar, isIdentBody, isLower, isUpper, isDigit, isMultispace]
+
+theorem commaWs0_step {X : Str} (h : headAll (fun c => !isMultispace c) X = true) :
+    commaWs0 (',' :: ' ' :: X) = .ok () X := by
+  unfold commaWs0
+  rw [seq_ok (ws0_of_head (by simp [headAll, isMultispace])), seq_ok (pchar_self _ _)]
+  have : (' ' :: X).dropWhile isMultispace = X := by
+    rw [List.dropWhile_cons, if_pos (by decide)]
+    cases X with
+    | nil => rfl
+    | cons c t =>
+      have : isMultispace c = false := by simpa [headAll] using h
+      simp [List.dropWhile_cons, this]
+  simp [ws0, this]
+
+theorem commaWs0_fails_gt (rest : Str) : Fails commaWs0 ('>' :: rest) :=
+  Fails.seq_ok (a := ()) (r := '>' :: rest) (ws0_of_head (by simp [headAll, isMultispace]))
+    (Fails.seq (pchar_ne (by decide) _))
+
+theorem sepList1_cons {α β : Type} {sep : P β} {p : P α} {i r r' : Str} {a : α} {as : List α}
+    (h : p i = .ok a r) (ht : sepTail sep p r = .ok as r') :
+    sepList1 sep p i = .ok (a :: as) r' := by
+  unfold sepTail at ht; simp [sepList1, h, ht]
+
+theorem printTys_eq (ts : List Ty) : printTys ts = ts.map printTy := by
+  induction ts with
+  | nil => rfl
+  | cons t ts ih => simp [printTys, ih]
+
+theorem stopTd_args_tail (as : List Ty) (rest : Str) :
+    stopTd ((as.map ([',', ' '] ++ printTy ·)).flatten ++ '>' :: rest) = true := by
+  cases as with
+  | nil => exact stopTd_gt _
+  | cons a as => exact stopTd_of_close _ (Or.inl rfl)
+
+/-- what follows `'name` / `'` / a module path when type arguments may follow: not a name character,
+    not `%`, `[`, a lowercase letter -/
+theorem angle_head (args : List Ty) {rest : Str} (hr : stopB rest = true) :
+    IdStop (angle (printTys args) ++ rest) ∧
+    headAll (fun c => !isLower c && c != '%' && c != '[') (angle (printTys args) ++ rest) = true := by
+  cases args with
+  | nil =>
+    simp only [printTys, angle, List.isEmpty_nil, if_true, List.nil_append]
+    refine ⟨stopB_idstop hr, ?_⟩
+    cases rest with
+    | nil => rfl
+    | cons c t =>
+      have h1 := stopB_head hr (c := '%') rfl
+      have h2 := stopB_head hr (c := '[') rfl
+      have h3 := (stopB_idstop hr).1
+      simp only [headAll, decide_eq_true_eq] at h1 h2
+      simp only [isIdentBody, Bool.or_eq_false_iff] at h3
+      simp [headAll, h1, h2, h3.1.1.1]
+  | cons a as =>
+    simp only [printTys, angle, List.isEmpty_cons, Bool.false_eq_true, if_false, List.cons_append]
+    exact ⟨by simp [IdStop, isIdentBody, isLower, isUpper, isDigit], by simp [headAll, isLower]⟩
+
 section
 variable {k : Knot} {L : Nat} (hk : GoodK k L)
 include hk
@@ -1031,6 +1093,121 @@ theorem partial_ok {name : Option Str} {fs : List Field} (hf : Field.fragList fs
     · unfold functionIoType
       rw [alt_of_ok hpt]
 
+theorem args_tail : ∀ as : List Ty, Ty.fragList as = true → Ty.wfList as = true →
+    Ty.lvAList as ≤ L → ∀ rest : Str,
+    sepTail commaWs0 k.td ((as.map ([',', ' '] ++ printTy ·)).flatten ++ '>' :: rest) =
+      .ok as ('>' :: rest) := by
+  intro as
+  induction as with
+  | nil => intro _ _ _ rest; exact sepTail_of_fails (commaWs0_fails_gt rest)
+  | cons a as ih =>
+    intro hf hw hl rest
+    simp only [Ty.fragList, Ty.wfList, Bool.and_eq_true] at hf hw
+    have hl1 : a.lvT ≤ L := Nat.le_trans a.lvT_le_lvA (Nat.le_trans (Nat.le_max_left _ _) hl)
+    have hl2 : Ty.lvAList as ≤ L := Nat.le_trans (Nat.le_max_right _ _) hl
+    simp only [List.map_cons, List.flatten_cons, List.append_assoc, List.cons_append,
+      List.nil_append]
+    obtain ⟨c, s, hp, hc⟩ := printTy_head hf.1 hw.1
+    have hws := (typeHead_facts hc).2.2.2.2.2.2
+    refine sepTail_cons Sound.commaWs0 hk.sound.1
+      (commaWs0_step (by rw [hp]; simp [headAll, hws])) (by simp; omega) ?_ (ih hf.2 hw.2 hl2 rest)
+    exact hk.td a hf.1 hw.1 hl1 _ (stopTd_args_tail as rest)
+
+theorem optArgs_ok {args : List Ty} (hf : Ty.fragList args = true) (hw : Ty.wfList args = true)
+    (hl : Ty.lvAList args ≤ L) {rest : Str} (hr : stopB rest = true) :
+    optArgs k (angle (printTys args) ++ rest) = .ok args rest ∧
+    opt (typeArgs k) (angle (printTys args) ++ rest) =
+      .ok (if args.isEmpty then none else some args) rest := by
+  cases args with
+  | nil =>
+    simp only [printTys, angle, List.isEmpty_nil, if_true, List.nil_append]
+    unfold optArgs
+    rw [pmap_ok (opt_of_fails (typeArgs_fails_stop k hr))]
+    exact ⟨rfl, opt_of_fails (typeArgs_fails_stop k hr)⟩
+  | cons a as =>
+    simp only [Ty.fragList, Ty.wfList, Bool.and_eq_true] at hf hw
+    have hl1 : a.lvT ≤ L := Nat.le_trans a.lvT_le_lvA (Nat.le_trans (Nat.le_max_left _ _) hl)
+    have hl2 : Ty.lvAList as ≤ L := Nat.le_trans (Nat.le_max_right _ _) hl
+    have hta : typeArgs k (angle (printTys (a :: as)) ++ rest) = .ok (a :: as) rest := by
+      have hang : angle (printTys (a :: as)) ++ rest =
+          '<' :: (printTy a ++ ((as.map ([',', ' '] ++ printTy ·)).flatten ++ '>' :: rest)) := by
+        simp only [angle, printTys_eq, List.map_cons, List.isEmpty_cons, Bool.false_eq_true, if_false]
+        rw [sepBy_cons, List.map_map]
+        simp
+        rfl
+      rw [hang]
+      unfold typeArgs delimited
+      rw [seq_ok (pchar_self _ _)]
+      exact before_ok (sepList1_cons (hk.td a hf.1 hw.1 hl1 _ (stopTd_args_tail as rest))
+        (args_tail hk as hf.2 hw.2 hl2 rest)) (pchar_self _ _)
+    unfold optArgs
+    rw [pmap_ok (opt_ok hta)]
+    exact ⟨rfl, by simpa using opt_ok hta⟩
+
+/-- `'name<args>` (an applied alias) and `'` / `'<args>` (the module's own default type) -/
+theorem quote_ok {rest : Str} (hr : stopB rest = true) :
+    (∀ (n : Str) (a : Ty) (as : List Ty), isIdentStr n = true → Ty.fragList (a :: as) = true →
+      Ty.wfList (a :: as) = true → Ty.lvAList (a :: as) ≤ L →
+      baseTypeWith k ('\'' :: (n ++ (angle (printTys (a :: as)) ++ rest))) = .ok (.ident n (a :: as)) rest ∧
+      functionIoType k ('\'' :: (n ++ (angle (printTys (a :: as)) ++ rest))) = .ok (.ident n (a :: as)) rest) ∧
+    (∀ args : List Ty, Ty.fragList args = true → Ty.wfList args = true → Ty.lvAList args ≤ L →
+      baseTypeWith k ('\'' :: (angle (printTys args) ++ rest)) = .ok (.selfDefault args) rest ∧
+      functionIoType k ('\'' :: (angle (printTys args) ++ rest)) = .ok (.selfDefault args) rest) := by
+  refine ⟨?_, ?_⟩
+  · intro n a as hn hf hw hl
+    have hah := angle_head (a :: as) hr
+    have htn : typeName ('\'' :: (n ++ (angle (printTys (a :: as)) ++ rest))) =
+        .ok n (angle (printTys (a :: as)) ++ rest) := by
+      unfold typeName
+      rw [seq_ok (pchar_self _ _)]
+      exact identifier_append hn hah.1
+    have hhb : headAll (· ≠ '[') (angle (printTys (a :: as)) ++ rest) = true := by
+      simp [angle, printTys, headAll]
+    have htt : Fails (tupleType k) ('\'' :: (n ++ (angle (printTys (a :: as)) ++ rest))) := by
+      unfold tupleType
+      exact Fails.alt (Fails.bind (tupleName_fails_of_head (by simp [headAll, isUpper])))
+        (Fails.alt (Fails.verify (Fails.bind_ok htn (Fails.pmap (fieldsIn_fails_head k _ _ hhb))))
+        (Fails.alt (Fails.pmap (fieldsIn_fails_head k _ _ (by simp [headAll])))
+          (Fails.bind (tupleName_fails_of_head (by simp [headAll, isUpper])))))
+    have hti : typeIdentifier k ('\'' :: (n ++ (angle (printTys (a :: as)) ++ rest))) =
+        .ok (.ident n (a :: as)) rest := by
+      unfold typeIdentifier
+      rw [bind_ok htn, pmap_ok (optArgs_ok hk hf hw hl hr).2]
+      simp
+    rw [base_quote k htt (moduleType_fails_ident k hn), fio_quote k htt (moduleType_fails_ident k hn),
+      alt_of_ok hti]
+    exact ⟨rfl, rfl⟩
+  · intro args hf hw hl
+    have hah := angle_head args hr
+    have hlow : headAll (fun c => !isLower c) (angle (printTys args) ++ rest) = true := by
+      cases h : angle (printTys args) ++ rest with
+      | nil => rfl
+      | cons c t => have := hah.2; rw [h] at this; simp only [headAll, Bool.and_eq_true] at this ⊢; exact this.1.1
+    have hpc : headAll (· ≠ '%') (angle (printTys args) ++ rest) = true := by
+      cases h : angle (printTys args) ++ rest with
+      | nil => rfl
+      | cons c t =>
+        have := hah.2; rw [h] at this
+        simp only [headAll, Bool.and_eq_true, bne_iff_ne] at this
+        simpa [headAll] using this.1.2
+    have htnf : Fails typeName ('\'' :: (angle (printTys args) ++ rest)) :=
+      Fails.seq_ok (pchar_self _ _) (identifier_fails_of_head hlow)
+    have htt : Fails (tupleType k) ('\'' :: (angle (printTys args) ++ rest)) := by
+      unfold tupleType
+      exact Fails.alt (Fails.bind (tupleName_fails_of_head (by simp [headAll, isUpper])))
+        (Fails.alt (Fails.verify (Fails.bind htnf))
+        (Fails.alt (Fails.pmap (fieldsIn_fails_head k _ _ (by simp [headAll])))
+          (Fails.bind (tupleName_fails_of_head (by simp [headAll, isUpper])))))
+    have hmod : Fails (moduleType k) ('\'' :: (angle (printTys args) ++ rest)) :=
+      Fails.seq_ok (pchar_self _ _) (Fails.bind (Fails.seq (pchar_fails_of_head hpc)))
+    have hti : Fails (typeIdentifier k) ('\'' :: (angle (printTys args) ++ rest)) := Fails.bind htnf
+    have hsd : selfDefaultType k ('\'' :: (angle (printTys args) ++ rest)) =
+        .ok (.selfDefault args) rest := by
+      unfold selfDefaultType
+      rw [seq_ok (pchar_self _ _), pmap_ok (optArgs_ok hk hf hw hl hr).1]
+    rw [base_quote k htt hmod, fio_quote k htt hmod, alt_of_fails hti, hsd]
+    exact ⟨rfl, rfl⟩
+
 /-- (A) and (C): the printed atom is read back by `base_type` and by `function_input_type` one
     level above the knot -/
 theorem atom_ok {t : Ty} (hf : t.frag = true) (hw : t.wf = true) (hl : t.lvA ≤ L + 1) {rest : Str}
@@ -1045,7 +1222,16 @@ theorem atom_ok {t : Ty} (hf : t.frag = true) (hw : t.wf = true) (hl : t.lvA ≤
     · exact ⟨base_ident k (n := ['r', 'e', 'f']) (by decide) hr, fio_ident k (n := ['r', 'e', 'f']) (by decide) hr⟩
   | ident n args =>
     cases args with
-    | cons a as => simp [Ty.frag] at hf
+    | cons a as =>
+      simp only [Ty.frag] at hf
+      simp only [Ty.wf, Bool.and_eq_true] at hw
+      have hla : Ty.lvAList (a :: as) ≤ L := by
+        simp only [Ty.lvA, List.isEmpty_cons, Bool.false_and, Bool.false_eq_true, if_false] at hl; omega
+      have hp : printAtom (.ident n (a :: as)) ++ rest =
+          '\'' :: (n ++ (angle (printTys (a :: as)) ++ rest)) := by
+        simp [printAtom, atomWrap, printTy]
+      rw [hp]
+      exact (quote_ok hk hr).1 n a as hw.1 hf hw.2 hla
     | nil =>
       have hn : isIdentStr n = true := by simpa [Ty.wf, Ty.wfList] using hw
       cases hnp : isPrimName n with
@@ -1137,7 +1323,14 @@ theorem atom_ok {t : Ty} (hf : t.frag = true) (hw : t.wf = true) (hl : t.lvA ≤
     exact paren_wrap hk hfacts.2.2.2.1 hfacts.2.2.2.2.2.2 hfacts.2.2.1 hfacts.2.1 hfacts.2.2.2.2.2.1 htd
   | proc a r => simp [Ty.frag] at hf
   | modty a b c => simp [Ty.frag] at hf
-  | selfDefault a => simp [Ty.frag] at hf
+  | selfDefault args =>
+    simp only [Ty.frag] at hf
+    simp only [Ty.wf] at hw
+    have hla : Ty.lvAList args ≤ L := by simp only [Ty.lvA] at hl; omega
+    have hp : printAtom (.selfDefault args) ++ rest = '\'' :: (angle (printTys args) ++ rest) := by
+      simp [printAtom, atomWrap, printTy]
+    rw [hp]
+    exact (quote_ok hk hr).2 args hf hw hla
 
 end
 
